@@ -38,6 +38,14 @@ create_thread(struct proc *proc, struct stream *s)
 		return NULL;
 	}
 
+	/* The TID identifies a thread in the whole node, not only in its
+	 * process: remote affinity events look it up in the loom */
+	if (proc->loom != NULL && loom_find_thread(proc->loom, tid) != NULL) {
+		err("thread with tid %d already exists in loom %s", tid,
+				proc->loom->id);
+		return NULL;
+	}
+
 	thread = malloc(sizeof(struct thread));
 	if (thread == NULL) {
 		err("malloc failed:");
